@@ -592,3 +592,107 @@ func TestVerif_C23_Queue(t *testing.T) {
 		rec.Label("drained-and-equal")
 	})
 }
+
+// TestVerif_C23_Burst: the same composite (real queue + real runQueue + real
+// proxy over the recording store fake) under DENSE concurrency. HTTP parsing
+// spreads arrivals ~100 us apart, which hides races inside the accept step
+// (sequence number vs. position in the queue); here 4-32 writer goroutines call
+// what the handler calls after parsing -- Service.stmtQueue.Write -- back to
+// back, hundreds of times each, so that the accept step itself is contended.
+// Oracle: once the service's sequence counter has reached the highest returned
+// sequence number, the applied log equals the statements ordered by the
+// sequence numbers their writers were given.
+func TestVerif_C23_Burst(t *testing.T) {
+	rec := vstat.New(t, "C23", "burst",
+		"rapid: 4-32 writer goroutines x 50-400 single-statement queued writes each, issued back to back through Service.stmtQueue.Write (the call the /db/execute?queue handler makes), queue capacity {1,4,64,1024}, batch size 1-16, batch timeout 1 ms, leader role, no failures; non-trivial = always (>= 4 concurrent writers); distinct by plan")
+	rapid.Check(t, func(rt *rapid.T) {
+		writers := rapid.IntRange(4, 32).Draw(rt, "writers")
+		per := rapid.IntRange(50, 400).Draw(rt, "writes-per-writer")
+		capacity := rapid.SampledFrom([]int{1, 4, 64, 1024}).Draw(rt, "capacity")
+		batch := rapid.IntRange(1, 16).Draw(rt, "batch-size")
+		canon := fmt.Sprintf("writers=%d per=%d cap=%d batch=%d", writers, per, capacity, batch)
+		rec.Case(true, canon)
+		rec.Sample(canon)
+
+		w := &c23World{}
+		ld := c23Leader{w}
+		svc := New("127.0.0.1:0", w, ld, proxy.New(w, ld), nil)
+		svc.logger.SetOutput(io.Discard)
+		svc.DefaultQueueBatchSz, svc.DefaultQueueCap = batch, capacity
+		svc.DefaultQueueTimeout = time.Millisecond
+		if err := svc.Start(); err != nil {
+			rt.Skipf("infrastructure: %v", err)
+		}
+		defer func() { w.release(); svc.Close() }()
+
+		type acc struct {
+			seq int64
+			tag string
+		}
+		all := make([][]acc, writers)
+		var wg sync.WaitGroup
+		start := make(chan struct{})
+		for wi := 0; wi < writers; wi++ {
+			wg.Add(1)
+			go func(wi int) {
+				defer wg.Done()
+				<-start
+				mine := make([]acc, 0, per)
+				for k := 0; k < per; k++ {
+					tag := fmt.Sprintf("w%d-k%d", wi, k)
+					seq, err := svc.stmtQueue.Write([]*command.Statement{{Sql: tag}}, nil)
+					if err != nil {
+						break
+					}
+					mine = append(mine, acc{seq, tag})
+				}
+				all[wi] = mine
+			}(wi)
+		}
+		close(start)
+		wg.Wait()
+		var accepted []acc
+		var maxSeq int64
+		for _, m := range all {
+			accepted = append(accepted, m...)
+		}
+		sort.Slice(accepted, func(i, j int) bool { return accepted[i].seq < accepted[j].seq })
+		for i, a := range accepted {
+			if i > 0 && accepted[i-1].seq == a.seq {
+				rt.Fatalf("%s", rec.Violation("C23/duplicate-sequence-number", "sequence number %d returned twice (%s, %s) :: %s", a.seq, accepted[i-1].tag, a.tag, canon))
+			}
+			maxSeq = a.seq
+		}
+		deadline := time.Now().Add(60 * time.Second)
+		for {
+			w.mu.Lock()
+			n := len(w.applied)
+			w.mu.Unlock()
+			if n >= len(accepted) && atomic.LoadInt64(&svc.seqNum) >= maxSeq {
+				break
+			}
+			if time.Now().After(deadline) {
+				rec.Label("inconclusive:not-drained-in-time")
+				return
+			}
+			time.Sleep(2 * time.Millisecond)
+		}
+		w.mu.Lock()
+		applied := append([]string(nil), w.applied...)
+		w.mu.Unlock()
+		if len(applied) != len(accepted) {
+			rt.Fatalf("%s", rec.Violation("C23/accepted-statement-dropped", "%d statements accepted, %d applied :: %s", len(accepted), len(applied), canon))
+		}
+		for i := range applied {
+			if applied[i] != accepted[i].tag {
+				sig := "C23/applied-order-differs-from-acceptance-order"
+				what := fmt.Sprintf("position %d: applied %s, but acceptance order (sequence numbers) has %s (seq %d) there", i, applied[i], accepted[i].tag, accepted[i].seq)
+				if rec.KnownHit(sig, what) {
+					return
+				}
+				rt.Fatalf("%s", rec.Violation(sig, "%s :: %s", what, canon))
+			}
+		}
+		rec.Label("drained-and-equal")
+	})
+}
